@@ -18,11 +18,11 @@ CONSTANTS NSH, NW, Variant
 
 Traces == JsonDeserialize(IOEnv.TRACE_FILE)
 
-VARIABLES kind, fs, opts, rpc, widx, cs, cph, csub, checkDone, status, nruns, fs0, tid, pos, prop, impl
+VARIABLES kind, fs, opts, rpc, widx, cs, cph, csub, checkDone, verified, status, nruns, fs0, tid, pos, prop, impl
 
 C == INSTANCE NP2Convert WITH MaxRuns <- 1000, Kinds <- {}
 
-cvars == <<kind, fs, opts, rpc, widx, cs, cph, csub, checkDone, status, nruns, fs0>>
+cvars == <<kind, fs, opts, rpc, widx, cs, cph, csub, checkDone, verified, status, nruns, fs0>>
 vars == <<cvars, tid, pos, prop, impl>>
 R == Traces[tid]
 St(i) == R.steps[i]
@@ -55,7 +55,7 @@ Init ==
     /\ tid \in 1..Len(Traces)
     /\ kind = R.kind /\ fs = St(1).fs
     /\ opts = [ow |-> FALSE, chk |-> FALSE, cmp |-> FALSE, del |-> FALSE]
-    /\ rpc = "idle" /\ widx = 0 /\ cs = 0 /\ cph = "ap" /\ csub = "stale" /\ checkDone = FALSE
+    /\ rpc = "idle" /\ widx = 0 /\ cs = 0 /\ cph = "ap" /\ csub = "stale" /\ checkDone = FALSE /\ verified = FALSE
     /\ status = "none" /\ nruns = 0 /\ fs0 = fs
     /\ pos = 1 /\ prop = "" /\ impl = ""
 
@@ -66,6 +66,7 @@ TBegin ==
        IF rpc = "idle" /\ ENABLED A
        THEN A /\ impl' = impl
        ELSE /\ opts' = St(pos).opts /\ rpc' = "lost" /\ fs0' = fs /\ status' = "none"
+            /\ verified' = FALSE
             /\ UNCHANGED <<kind, fs, widx, cs, cph, csub, checkDone, nruns>>
             /\ impl' = Pick(impl, << <<FALSE, "begin">> >>)
     /\ pos' = pos + 1 /\ UNCHANGED <<tid, prop>>
@@ -74,15 +75,17 @@ TBegin ==
 TStep ==
     /\ pos >= 1 /\ pos < Len(R.steps) /\ St(pos).pt \notin {"begin", "end"}
     /\ \E lab \in {St(pos).pt} : \E obs \in {St(pos + 1).fs} : \E old \in {fs} : \E cd \in {St(pos + 1).cd} :
+       \E vr \in {St(pos + 1).vr} :
         LET A == fs' = obs /\ ActionFor(lab) IN
         /\ IF rpc # "lost" /\ ENABLED A
-           THEN A /\ impl' = Pick(impl, << <<checkDone' = cd \/ rpc' = "idle", "check_completed">> >>)
-           ELSE /\ fs' = obs /\ rpc' = "lost" /\ checkDone' = cd
+           THEN A /\ impl' = Pick(impl, << <<checkDone' = cd \/ rpc' = "idle", "check_completed">>,
+                                             <<verified' = vr \/ rpc' = "idle", "verified-this-run">> >>)
+           ELSE /\ fs' = obs /\ rpc' = "lost" /\ checkDone' = cd /\ verified' = vr
                 /\ UNCHANGED <<kind, opts, widx, cs, cph, csub, status, nruns, fs0>>
                 /\ impl' = Pick(impl, << <<FALSE, lab>> >>)
         /\ prop' = Pick(prop, <<
               <<C!RecoverableP(kind, obs), "Recoverable">>,
-              <<C!DeleteGuardP(kind, old, obs, cd), "DeleteGuard">> >>)
+              <<C!DeleteGuardP(kind, old, obs, vr), "DeleteGuard">> >>)
     /\ pos' = pos + 1 /\ UNCHANGED tid
 
 \* St(pos) is "end": the run is over, its status is St(pos).status
@@ -91,7 +94,7 @@ TEnd ==
     /\ impl' = Pick(impl, << <<rpc = "lost" \/ (rpc = "idle" /\ status = St(pos).status), "status">> >>)
     /\ prop' = Pick(prop, << <<C!OutcomeP(kind, opts, St(pos).status, fs0, fs), "Outcome">> >>)
     /\ rpc' = "idle" /\ status' = St(pos).status
-    /\ UNCHANGED <<kind, fs, opts, widx, cs, cph, csub, checkDone, nruns, fs0>>
+    /\ UNCHANGED <<kind, fs, opts, widx, cs, cph, csub, checkDone, verified, nruns, fs0>>
     /\ pos' = pos + 1 /\ UNCHANGED tid
 
 Report ==
